@@ -19,7 +19,7 @@ func init() {
 			"(2) Append and WriteNeedleBlob register, before WriteAt, a deferred roll-back that truncates the data file when the returned error is non-nil; (3) needle map Put/Delete happen only on the nil-error edge of the append (shared with C01); " +
 			"(4) verifyNeedleIntegrity / verifyDeletedNeedleIntegrity return success only past size and id comparisons; their errors are not swallowed by doCheckAndFixVolumeData; " +
 			"(5) CheckAndFixVolumeDataIntegrity shrinks the index only on the io.EOF classification, guards the truncation by healthy < size and strides by NeedleMapEntrySize in both offset-width builds. " +
-			"Does NOT decide that every truncation point is survivable (record arithmetic and file contents).",
+			"Does NOT decide that every truncation point is survivable (record arithmetic and file contents). Also decided: only an index entry with a negative size is verified as the end-of-file tombstone; entries with size >= 0 (empty blobs included) are verified at their offset.",
 		Assumptions: []string{"crash = the data and index files keep a prefix; the static rules only decide the shape of the recovery code"},
 		Trusted:     baseTrusted,
 	})
